@@ -1533,11 +1533,18 @@ def gen_pipe_field(draw, tier="quick"):
         if case["variant"] == "ordinary":
             # Ordinary kriging takes no mean
             case["mean"] = None
+    if dim > 1 and kind != "field" and draw(st.booleans()):
+        # anisotropic, rotated model: mean / trend functions still see the given coordinates
+        case["anis"] = [draw(st.sampled_from([0.3, 0.6, 2.0, 4.0])) for _ in range(dim - 1)]
+        case["angles"] = [draw(st.sampled_from([0.4, 1.1, -0.8, 2.5])) for _ in range(dim * (dim - 1) // 2)]
     return case
 
 
 def _mk_model(case):
-    return getattr(gs, case["model"])(dim=case["dim"], var=case["var"], len_scale=case["len_scale"])
+    kw = {}
+    if case.get("anis"):
+        kw = {"anis": list(case["anis"]), "angles": list(case["angles"])}
+    return getattr(gs, case["model"])(dim=case["dim"], var=case["var"], len_scale=case["len_scale"], **kw)
 
 
 def _norm_arg(case):
